@@ -89,10 +89,10 @@ Example C09_history_nonvacuous :
   let po0 : parse_oracle := fun _ => Some [] in
   let lab0 : label_oracle := fun k => [cl k] in
   let svc := mkCidr V4 167772160 28 in
-  let ops := [Construct (Some svc) None []; StartInformers;
+  let ops := [Construct (Some svc) None [] []; StartInformers;
               UCreateCC (mkCCObj [99] (FOk (mkCidr V4 167772160 26)) FEmpty 4 (Some [107]) [] false 1 0 0); DeliverCC; ProcCC UOk; DeliverCC; ProcCC UOk;
               UCreateNode [110;49] [] []; DeliverNode; ProcNode [POk]; DeliverNode; Crash;
-              Construct (Some svc) None [UOk]; StartInformers; ProcCC UOk; ProcNode [POk];
+              Construct (Some svc) None [UOk] []; StartInformers; ProcCC UOk; ProcNode [POk];
               UDeleteNode [110;49]; DeliverNode; ProcNode [POk]; UCreateNode [110;50] [] []; DeliverNode; ProcNode [POk]] in
   Forall wf_op ops /\
   map (fun a => (an_name a, an_cidrs a)) (w_nodes (run po0 lab0 init_world ops)) = [([110;50], [PGood (mkCidr V4 167772176 28) true])] /\
